@@ -225,6 +225,12 @@ class StormLibWrapper:
             raise ValueError(
                 f"embedded null character in path: {path_to_file_on_disk!r}"
             )
+        if "*" in path_to_file_on_disk:
+            # StormLib reads "name*master" as the file "name" with a master stream: it
+            # would act on the part before the "*", not on the file that was checked
+            raise ValueError(
+                f"'*' cannot be used in a path given to StormLib: {path_to_file_on_disk!r}"
+            )
         if platform.system().lower() == "windows":
             return path_to_file_on_disk
         return path_to_file_on_disk.encode(_STORMLIB_STRING_ARG_ENCODING)
